@@ -25,6 +25,9 @@ def frontier (s : St) : Nat := max s.lastApplied s.dispatched
 
 def dec (e : IEntry) : Nat × ACmd := (e.1, decode e.2)
 
+/-- Batches handed to the worker and not applied yet: the one it holds, then the channel content. -/
+def inflight (s : St) : List Batch := s.holding.toList ++ s.queue
+
 /-- Inductive invariant of the three-actor system (`L0`, `kv0`: values at the start). -/
 structure Inv (L0 : Nat) (kv0 : KV) (s : St) : Prop where
   noEmpty : ∀ p ∈ s.log, p ≠ Payload.empty
@@ -34,7 +37,8 @@ structure Inv (L0 : Nat) (kv0 : KV) (s : St) : Prop where
   kv : s.kv = (seg s.log L0 s.lastApplied).foldl (fun m e => applyACmd m (decode e.2)) kv0
   sm : s.smLast = s.lastApplied
   queue : s.workerDead = false →
-    s.queue.flatten = seg s.log s.lastApplied (frontier s) ∧ ∀ b ∈ s.queue, b ≠ []
+    (inflight s).flatten = seg s.log s.lastApplied (frontier s) ∧ ∀ b ∈ inflight s, b ≠ []
+  deadHold : s.workerDead = true → s.holding = none
 
 /-- Start states: handler freshly built over a state machine whose `last_applied` is `L0`. -/
 structure Init (s : St) : Prop where
@@ -43,14 +47,15 @@ structure Init (s : St) : Prop where
   applied : s.applied = []
   sm : s.smLast = s.lastApplied
   queue : s.queue = []
+  holding : s.holding = none
   disp : s.dispatched ≤ s.lastApplied
 
 theorem inv_init (s : St) (h : Init s) : Inv s.lastApplied s.kv s := by
   have hf : frontier s = s.lastApplied := by have := h.disp; unfold frontier; omega
-  refine ⟨h.noEmpty, Nat.le_refl _, by rw [hf]; exact h.inLog, ?_, ?_, h.sm, ?_⟩
+  refine ⟨h.noEmpty, Nat.le_refl _, by rw [hf]; exact h.inLog, ?_, ?_, h.sm, ?_, fun _ => h.holding⟩
   · rw [h.applied, seg_self]; rfl
   · rw [seg_self]; rfl
-  · intro _; rw [hf, seg_self, h.queue]; simp
+  · intro _; unfold inflight; rw [hf, seg_self, h.queue, h.holding]; simp
 
 /-- Ops that append an entry never append one without payload (`entry.payload == None`). -/
 def WfOps (ops : List Op) : Prop := ∀ op ∈ ops, op ≠ Op.append Payload.empty
@@ -64,7 +69,7 @@ theorem inv_append (L0 kv0 s p) (h : Inv L0 kv0 s) (hp : p ≠ Payload.empty) :
   unfold frontier at hin
   have e1 : seg (s.log ++ [p]) L0 s.lastApplied = seg s.log L0 s.lastApplied :=
     seg_append_log _ _ _ _ (by omega)
-  refine ⟨?_, h.le, ?_, ?_, ?_, h.sm, ?_⟩
+  refine ⟨?_, h.le, ?_, ?_, ?_, h.sm, ?_, h.deadHold⟩
   · intro q hq
     simp only [List.mem_append, List.mem_singleton] at hq
     rcases hq with hq | hq
@@ -78,12 +83,15 @@ theorem inv_append (L0 kv0 s p) (h : Inv L0 kv0 s) (hp : p ≠ Payload.empty) :
     rw [e1]; exact h.kv
   · intro hd
     have := h.queue hd
-    show s.queue.flatten = seg (s.log ++ [p]) s.lastApplied (frontier s) ∧ _
+    show (inflight s).flatten = seg (s.log ++ [p]) s.lastApplied (frontier s) ∧ _
     rw [seg_append_log _ _ _ _ (by unfold frontier; omega)]
     exact this
 
 theorem inv_processBatch (L0 kv0 s) (h : Inv L0 kv0 s) : Inv L0 kv0 (processBatch s) := by
   unfold processBatch
+  split
+  case isTrue => exact h
+  case isFalse hnd =>
   split
   case isFalse => exact h
   case isTrue hpl =>
@@ -118,50 +126,76 @@ theorem inv_processBatch (L0 kv0 s) (h : Inv L0 kv0 s) : Inv L0 kv0 (processBatc
     rw [hdisp]
     have : E = max s.lastApplied s.dispatched := rfl
     split <;> omega
-  refine ⟨h.noEmpty, h.le, ?_, h.applied, h.kv, h.sm, ?_⟩
+  refine ⟨h.noEmpty, h.le, ?_, h.applied, h.kv, h.sm, ?_, h.deadHold⟩
   · show max s.lastApplied (dispatchedAfter s.dispatched sent) ≤ s.log.length
     rw [hfr]; omega
   · intro hd
     obtain ⟨hq, hqne⟩ := h.queue hd
     refine ⟨?_, ?_⟩
-    · show (s.queue ++ sent).flatten = seg s.log s.lastApplied (max s.lastApplied (dispatchedAfter s.dispatched sent))
-      rw [hfr, List.flatten_append, hq, hflat]
+    · show (s.holding.toList ++ (s.queue ++ sent)).flatten = seg s.log s.lastApplied (max s.lastApplied (dispatchedAfter s.dispatched sent))
+      rw [hfr, ← List.append_assoc, List.flatten_append]
+      show (inflight s).flatten ++ _ = _
+      rw [hq, hflat]
       exact (seg_split s.log s.lastApplied E (E + k)
         (by show s.lastApplied ≤ frontier s; unfold frontier; omega) (by omega) hin).symm
     · intro b hb
-      simp only [List.mem_append] at hb
-      rcases hb with hb | hb
-      · exact hqne b hb
-      · exact hsne b hb
+      have hb' : b ∈ inflight s ∨ b ∈ sent := by
+        unfold inflight
+        simp only [inflight, List.mem_append] at hb ⊢
+        rcases hb with hb | hb | hb
+        · exact Or.inl (Or.inl hb)
+        · exact Or.inl (Or.inr hb)
+        · exact Or.inr hb
+      rcases hb' with hb' | hb'
+      · exact hqne b hb'
+      · exact hsne b hb'
 
 theorem inv_run1 (L0 kv0 mb s) (h : Inv L0 kv0 s) : Inv L0 kv0 (run1 mb s) := by
   unfold run1
   split
   · exact h
   · apply inv_processBatch
-    exact ⟨h.noEmpty, h.le, h.inLog, h.applied, h.kv, h.sm, h.queue⟩
+    exact ⟨h.noEmpty, h.le, h.inLog, h.applied, h.kv, h.sm, h.queue, h.deadHold⟩
 
-theorem inv_work (L0 kv0 s) (h : Inv L0 kv0 s) : Inv L0 kv0 (work s) := by
-  unfold work
+theorem inv_fetch (L0 kv0 s) (h : Inv L0 kv0 s) : Inv L0 kv0 (fetch s) := by
+  unfold fetch
   split
   case isTrue => exact h
-  case isFalse hdead =>
-  have hd : s.workerDead = false := by simpa using hdead
-  obtain ⟨hq, hqne⟩ := h.queue hd
+  case isFalse hc =>
+  simp only [Bool.or_eq_true, not_or, Bool.not_eq_true, Option.isSome_eq_false_iff, Option.isNone_iff_eq_none] at hc
+  obtain ⟨hd, hh⟩ := hc
   split
   case h_1 => exact h
   case h_2 b q hqeq =>
-  rw [hqeq] at hq hqne
   split
   case isTrue =>
-    -- decode failure: worker gone
-    exact ⟨h.noEmpty, h.le, h.inLog, h.applied, h.kv, h.sm, fun hc => by simp at hc⟩
+    exact ⟨h.noEmpty, h.le, h.inLog, h.applied, h.kv, h.sm, fun hc => by simp at hc, fun _ => hh⟩
   case isFalse =>
+    refine ⟨h.noEmpty, h.le, h.inLog, h.applied, h.kv, h.sm, ?_, fun hc => by rw [hd] at hc; simp at hc⟩
+    intro _
+    have := h.queue hd
+    unfold inflight at this ⊢
+    rw [hh, hqeq] at this
+    simpa [frontier] using this
+
+theorem inv_applyHeld (L0 kv0 s) (h : Inv L0 kv0 s) : Inv L0 kv0 (applyHeld s) := by
+  unfold applyHeld
+  split
+  case h_1 => exact h
+  case h_2 b hhold =>
+  have hd : s.workerDead = false := by
+    cases hdd : s.workerDead with
+    | false => rfl
+    | true => have := h.deadHold hdd; rw [hhold] at this; simp at this
+  obtain ⟨hq, hqne⟩ := h.queue hd
+  unfold inflight at hq hqne
+  rw [hhold] at hq hqne
+  simp only [Option.toList_some, List.singleton_append] at hq hqne
   have hin := h.inLog
   have hbne : b ≠ [] := hqne b (by simp)
   have hblen : 0 < b.length := List.length_pos_iff.mpr hbne
   simp only [List.flatten_cons] at hq
-  obtain ⟨hle, hb, hrest⟩ := seg_append_inj s.log s.lastApplied (frontier s) b q.flatten hin
+  obtain ⟨hle, hb, hrest⟩ := seg_append_inj s.log s.lastApplied (frontier s) b s.queue.flatten hin
     (by unfold frontier; omega) hq
   have hlast : lastIdx b = s.lastApplied + b.length := by
     rw [hb, seg_length _ _ _ (by omega)]
@@ -176,7 +210,7 @@ theorem inv_work (L0 kv0 s) (h : Inv L0 kv0 s) : Inv L0 kv0 (work s) := by
   have hsplit := seg_split s.log L0 s.lastApplied (s.lastApplied + b.length) h.le (by omega) (by omega)
   have hfr : frontier s = max (s.lastApplied + b.length) s.dispatched := by
     unfold frontier at hle ⊢; omega
-  refine ⟨h.noEmpty, ?_, ?_, ?_, ?_, ?_, ?_⟩
+  refine ⟨h.noEmpty, ?_, ?_, ?_, ?_, ?_, ?_, fun _ => rfl⟩
   · show L0 ≤ s.lastApplied + b.length
     have := h.le; omega
   · show max (s.lastApplied + b.length) s.dispatched ≤ s.log.length
@@ -188,15 +222,15 @@ theorem inv_work (L0 kv0 s) (h : Inv L0 kv0 s) : Inv L0 kv0 (work s) := by
   · show s.lastApplied + b.length = s.lastApplied + b.length
     rfl
   · intro _
-    refine ⟨?_, fun x hx => hqne x (List.mem_cons_of_mem _ hx)⟩
-    show q.flatten = seg s.log (s.lastApplied + b.length) (max (s.lastApplied + b.length) s.dispatched)
-    rw [← hfr]; exact hrest
+    refine ⟨?_, fun x hx => hqne x (List.mem_cons_of_mem _ (by simpa [inflight] using hx))⟩
+    show (([] : List Batch) ++ s.queue).flatten = seg s.log (s.lastApplied + b.length) (max (s.lastApplied + b.length) s.dispatched)
+    rw [← hfr]; simpa using hrest
 
 theorem inv_restart (L0 kv0 s) (h : Inv L0 kv0 s) : Inv L0 kv0 (restart s) := by
   unfold restart
   have hin := h.inLog
   unfold frontier at hin
-  refine ⟨h.noEmpty, ?_, ?_, ?_, ?_, rfl, ?_⟩
+  refine ⟨h.noEmpty, ?_, ?_, ?_, ?_, rfl, ?_, fun _ => rfl⟩
   · show L0 ≤ s.smLast
     rw [h.sm]; exact h.le
   · show max s.smLast 0 ≤ s.log.length
@@ -206,17 +240,18 @@ theorem inv_restart (L0 kv0 s) (h : Inv L0 kv0 s) : Inv L0 kv0 (restart s) := by
   · show s.kv = _
     simp only [h.sm]; exact h.kv
   · intro _
-    show ([] : List Batch).flatten = seg s.log s.smLast (max s.smLast 0) ∧ _
+    show (([] : List Batch) ++ []).flatten = seg s.log s.smLast (max s.smLast 0) ∧ _
     have : max s.smLast 0 = s.smLast := by omega
-    rw [this, seg_self]; simp
+    rw [this, seg_self]; simp [inflight]
 
 theorem inv_step (L0 kv0 mb s op) (h : Inv L0 kv0 s) (hop : op ≠ Op.append Payload.empty) :
     Inv L0 kv0 (step mb s op) := by
   cases op with
   | append p => exact inv_append L0 kv0 s p h (fun hp => hop (by rw [hp]))
-  | commit c => exact ⟨h.noEmpty, h.le, h.inLog, h.applied, h.kv, h.sm, h.queue⟩
+  | commit c => exact ⟨h.noEmpty, h.le, h.inLog, h.applied, h.kv, h.sm, h.queue, h.deadHold⟩
   | run1 => exact inv_run1 L0 kv0 mb s h
-  | work => exact inv_work L0 kv0 s h
+  | fetch => exact inv_fetch L0 kv0 s h
+  | apply => exact inv_applyHeld L0 kv0 s h
   | restart => exact inv_restart L0 kv0 s h
 
 theorem inv_exec (L0 kv0 mb s ops) (h : Inv L0 kv0 s) (hw : WfOps ops) : Inv L0 kv0 (exec mb s ops) := by
@@ -263,5 +298,49 @@ theorem kv_eq_fold (mb : Nat) (s0 : St) (ops : List Op) (h0 : Init s0) (hw : WfO
   intro s
   have h := inv_exec s0.lastApplied s0.kv mb s0 ops (inv_init s0 h0) hw
   exact ⟨h.kv, h.applied⟩
+
+
+/-! ### Non-vacuity and the F10 regression witness -/
+
+/-- Seven Noop entries (each Noop flushes its own batch). -/
+def w7 : St := { log := List.replicate 7 Payload.noop }
+
+example : Init w7 := ⟨by decide, by decide, rfl, rfl, rfl, rfl, by decide⟩
+
+/-- The F10 schedule: commit=5 handled, then commit=7 handled, before the worker applies anything;
+    afterwards the worker drains everything. -/
+def f10Schedule : List Op :=
+  [.commit 5, .run1, .commit 7, .run1] ++ (List.replicate 12 [Op.fetch, Op.apply]).flatten
+
+example : WfOps f10Schedule := by unfold WfOps; decide
+
+/-- On the current code (with `dispatched_up_to`) the witness schedule applies 1..7 once each. -/
+theorem f10_fixed : appliedIdx (exec 10 w7 f10Schedule) = [1, 2, 3, 4, 5, 6, 7] := by decide
+
+/-- `process_batch` as it was before fix F10: the range comes from `pending_range()` alone. -/
+def processBatchOld (s : St) : St :=
+  if s.workerDead then s else
+  if s.pending > s.lastApplied then
+    let a := (entriesFrom s.log (s.lastApplied + 1) s.pending).foldl pbStep {}
+    { s with queue := s.queue ++ pbFinish a, cfgCalls := s.cfgCalls ++ a.cfg }
+  else s
+
+def stepOld (mb : Nat) (s : St) : Op → St
+  | .run1 =>
+    match s.notif with
+    | [] => s
+    | c :: rest =>
+      processBatchOld { s with notif := rest.drop (mb - 1),
+                               pending := (c :: rest.take (mb - 1)).foldl updatePending s.pending }
+  | op => step mb s op
+
+/-- **F10 regression (fixed by commit 2c42b49).** The old `process_batch` on the witness schedule hands
+    1..5 to the state machine twice and `last_applied` goes 5 → 1: the contiguity statement is false for it. -/
+theorem f10_regression :
+    appliedIdx (f10Schedule.foldl (stepOld 10) w7) = [1, 2, 3, 4, 5, 1, 2, 3, 4, 5, 6, 7] := by decide
+
+theorem f10_old_violates :
+    ¬ (appliedIdx (f10Schedule.foldl (stepOld 10) w7)).Pairwise (· < ·) := by
+  rw [f10_regression]; decide
 
 end DEngine.C06
